@@ -201,3 +201,15 @@ seed('c01-check-short', 'C01', [(PGC, "for (int j = 0; result && j < last; ++j)"
 seed('c01-rrt-other-node', 'C01', [(RRTC, "            if (sat)\n            {\n                approxdif = dist;\n                solution = nmotion;", "            if (sat)\n            {\n                approxdif = dist;\n                solution = nmotion->parent;")], 'R01e')
 seed('c01-prm-edge-before-check', 'C01', [(PRMC2, "            if (si_->checkMotion(stateProperty_[n], stateProperty_[m]))\n            {\n                successfulConnectionAttemptsProperty_[m]++;\n                successfulConnectionAttemptsProperty_[n]++;", "            (void)si_->checkMotion(stateProperty_[n], stateProperty_[m]);\n            {\n                successfulConnectionAttemptsProperty_[m]++;\n                successfulConnectionAttemptsProperty_[n]++;")], 'R01a')
 seed('c01-n-guard-in-local', 'C01', [(RRTC, "        if (si_->checkMotion(nmotion->state, dstate))\n        {\n            if (addIntermediateStates_)", "        const bool motionOk = si_->checkMotion(nmotion->state, dstate);\n        if (motionOk)\n        {\n            if (addIntermediateStates_)")], None)
+
+# ---- C02 -------------------------------------------------------------------------------------------------------
+CRRT = 'src/ompl/control/planners/rrt/src/RRT.cpp'
+CSI = 'src/ompl/control/src/SpaceInformation.cpp'
+CEST = 'src/ompl/control/planners/est/src/EST.cpp'
+RVC = 'src/ompl/control/spaces/src/RealVectorControlSpace.cpp'
+seed('c02-steps-plus1', 'C02', [(CRRT, "                motion->steps = cd;", "                motion->steps = cd + 1;")], 'R02a')
+seed('c02-r-i-plus1', 'C02', [(CSI, "                r = i;\n                break;", "                r = i + 1;\n                break;")], 'R02d')
+seed('c02-append-min-duration', 'C02', [(CEST, "mpath[i]->steps * siC_->getPropagationStepSize()", "siC_->getMinControlDuration() * siC_->getPropagationStepSize()")], 'R02c')
+seed('c02-sampler-2high', 'C02', [(RVC, "rng_.uniformReal(bounds.low[i], bounds.high[i])", "rng_.uniformReal(bounds.low[i], 2.0 * bounds.high[i])")], 'R02e')
+seed('c02-unchecked-swap', 'C02', [(CSI, "            if (isValid(temp2))\n                std::swap(temp1, temp2);\n            else", "            std::swap(temp1, temp2);\n            if (isValid(temp2))\n                ;\n            else")], 'R02d')
+seed('c02-n-duration-local', 'C02', [(CEST, "                path->append(mpath[i]->state, mpath[i]->control, mpath[i]->steps * siC_->getPropagationStepSize());", "            {\n                const double dur = mpath[i]->steps * siC_->getPropagationStepSize();\n                path->append(mpath[i]->state, mpath[i]->control, dur);\n            }")], None)
